@@ -87,7 +87,8 @@ def run(ctx):
         "the authenticator is reached only with starttls false or a successful TLS upgrade; (A5) the TLS upgrade "
         "returns True only after wrap_socket succeeded and the socket was replaced; (A6) after the upgrade the "
         "capabilities are cleared and re-read and the plaintext read buffer is discarded; (A7) credential-bearing "
-        "sends are reachable only through the authenticator. These hold for every call history and server "
+        "sends are reachable only through the authenticator; (A8) connect() empties the capability table and the read buffer "
+        "before the new connection is first read. These hold for every call history and server "
         "behaviour because they hold on every path of the code.")
     ctx.not_decided = "the behaviour of a real server and of the ssl module; histories are covered only through the flag/ordering facts."
     ctx.assumptions = ["Python name mangling keeps __private methods unreachable from outside the class",
@@ -188,6 +189,7 @@ def run(ctx):
         ctx.violation("A1", f, "direct-send", "socket write outside the Client command sender", node=c)
 
     conn = a3(ctx, R)
+    a8(ctx, R)
 
     # ---- A4 connect ordering --------------------------------------------------
     ctx.rule("A4", "connect: the authenticator is reached only with starttls false or after the TLS upgrade returned True")
@@ -481,6 +483,56 @@ def a3(ctx, R):
                       witness="connect() OK; connect() again, refused by the server (returns False); listscripts() "
                               "writes LISTSCRIPTS on the unauthenticated connection")
     return conn
+
+
+def a8(ctx, R):
+    """Per-connection state (shared with C05, C14, C15, C16): what was recorded for a previous connection - the capability table
+    and the unread bytes - does not apply to a new one."""
+    ctx.rule("A8", "connect() empties the capability table and the read buffer before the new connection is first read")
+    G = R.graph
+    conn = connect_method(R, "A8")
+    cfgc = ctx.cfg(conn)
+    cap_attr = None
+    for n in G.edges[conn.name]:
+        f = R.methods[n]
+        if R.assembler.name in G.edges[n]:
+            for x in ast.walk(f.node):
+                if isinstance(x, ast.Subscript) and isinstance(x.ctx, ast.Store) and isinstance(x.value, ast.Attribute) \
+                        and isinstance(x.value.value, ast.Name) and x.value.value.id == f.params[0]:
+                    cap_attr = x.value.attr
+    if cap_attr is None:
+        raise AnalysisError("A8", "capability table not identified")
+    first_use = []
+    for c in self_calls(conn):
+        if c.func.attr in G.methods and (R.sender.name in G.reach_from([c.func.attr]) or R.assembler.name in G.reach_from([c.func.attr])):
+            first_use.extend(cfgc.node_containing(c))
+    if not first_use:
+        raise AnalysisError("A8", "connect() does not call anything that talks to the server")
+    caps, bufs = [], []
+    for n in walk_no_nested(conn.node):
+        if isinstance(n, ast.Assign):
+            for t in n.targets:
+                if isinstance(t, ast.Attribute) and isinstance(t.value, ast.Name) and t.value.id == conn.params[0]:
+                    v = const_value(ctx.program, conn, n.value)
+                    empty = v is not TOP and not v and v is not None
+                    if t.attr == cap_attr and (empty or (isinstance(n.value, ast.Call) and call_name(n.value) == "dict" and not n.value.args)):
+                        caps.extend(cfgc.nodes_for(n))
+                    if mangle(R.cls.name, t.attr) == R.buffer_attr and empty:
+                        bufs.extend(cfgc.nodes_for(n))
+        if isinstance(n, ast.Call) and isinstance(n.func, ast.Attribute) and n.func.attr == "clear" and isinstance(n.func.value, ast.Attribute) \
+                and n.func.value.attr == cap_attr:
+            caps.extend(cfgc.node_containing(n))
+    for what, nodes, key, wit in (
+            ("capability table", caps, "stale-capabilities",
+             "connect() to a server that announces SASL, then connect() to one that does not: AUTHENTICATE with the credentials is sent anyway "
+             "(and a stale VERSION line makes renamescript send RENAMESCRIPT)"),
+            ("read buffer", bufs, "stale-read-buffer",
+             "a BYE left unread by the previous connection is taken for the greeting of the new one")):
+        if nodes and all(cfgc.dominates(nodes, u, exc=False) for u in first_use):
+            ctx.holds("A8", "%s: the %s is emptied before the new connection is read" % (conn.qualname, what))
+        else:
+            ctx.violation("A8", conn, key, "connect() reads the new connection without having emptied the %s: what the previous "
+                          "connection left there is attributed to this one" % what, node=conn.node, witness=wit)
 
 
 def status_paths(ctx, R, f, extra_oracle=None):
